@@ -59,6 +59,18 @@ def corpus(ctx):
         m2.func([W.I32], [W.I32], W.ins("local.get", 0) + W.ins("i32.const", i) + W.ins("i32.add"), locals_=[(3, W.I32), (2, W.I64)], export="f%d" % i)
     m2.names = name_section([(i, "fn%d" % i) for i in range(0, 40, 3)])
     mods.append(("many_functions_partial_names", m2))
+    # a name section with every kind of subsection: module name (0), function names (1), local names (2), and an unknown id (9) - before and after the function names
+    m3 = W.Module()
+    m3.func([W.I32], [W.I32], W.ins("local.get", 0), export="id")
+    m3.func([], [W.I32], W.ins("i32.const", 7))
+    sub = lambda sid, payload: bytes([sid]) + W.uleb(len(payload)) + payload
+    m3.names = sub(0, W.name("the module")) + name_section([(0, "identity"), (1, "seven")]) + \
+        sub(2, W.uleb(1) + W.uleb(0) + W.uleb(1) + W.uleb(0) + W.name("param0")) + sub(9, b"\x01\x02\x03\x04\x05")
+    mods.append(("name_section_all_subsections", m3))
+    # no export section, no name section, no imports: every optional section absent
+    m4 = W.Module()
+    m4.func([], [], b"")
+    mods.append(("bare_minimum_no_exports", m4))
     return mods
 
 
@@ -68,7 +80,8 @@ OPTSETS = [[], ["-p"], ["-m"], ["-g"], ["-g", "-p", "-m"], ["-f", "1", "-t", "2"
 def asan_matrix(ctx, job):
     exe = build_asan(ctx)
     facts = []
-    env = dict(os.environ, ASAN_OPTIONS="detect_leaks=0:abort_on_error=0", UBSAN_OPTIONS="print_stacktrace=0")
+    # MALLOC_PERTURB_ is honoured by glibc only; under ASan the allocator is replaced, whose malloc_fill_byte does the same job: fresh heap memory is never zero
+    env = dict(os.environ, ASAN_OPTIONS="detect_leaks=0:abort_on_error=0:max_malloc_fill_size=1048576:malloc_fill_byte=165", UBSAN_OPTIONS="print_stacktrace=0", MALLOC_PERTURB_="165")
     mods = corpus(ctx)
     quick = ctx.tier == "quick"
     for mname, m in mods:
